@@ -22,7 +22,7 @@ EDITS = [
 dst = '/tmp/harmless_repo'
 bad = 0
 for props, rel, old, new, desc in EDITS:
-    subprocess.run(['rsync', '-a', '--delete', '--exclude', 'target', '--exclude', '.git', '/repo/', dst + '/'], check=True)
+    subprocess.run(['rsync', '-rlpgoD', '--checksum', '--delete', '--exclude', 'target', '--exclude', '.git', '/repo/', dst + '/'], check=True)
     p = os.path.join(dst, rel)
     s = open(p).read()
     if s.count(old) != 1:
